@@ -91,6 +91,7 @@ type Exec struct {
 	idxLog      *[]IdxT           // collector of (index, sequence) pairs read while evaluating a quantifier body
 	probe       *[]SeqRef         // collector of sequences indexed by a probe variable (see seqsOf)
 	noWD        bool              // suppress well-definedness obligations (while assuming the function's own requires)
+	view        string            // proof view being verified (see Clause.Group)
 	curGuard    string            // guard of the spec sub-expression being evaluated (see SpecEnv.g)
 	withQ       bool              // include raw quantified assumptions in queries (second attempt)
 	modelTerms  map[string]string // names (parameters, lets) -> scalar terms whose values are asked from a model
@@ -125,7 +126,7 @@ func (x *Exec) noteRead(key string, t types.Type) {
 func (x *Exec) note(s string) { x.notes[s] = true }
 
 func newExec(eng *Engine, fn *ssa.Function, con *Contract, key string, bound int) *Exec {
-	return &Exec{eng: eng, decls: newDecls(), fn: fn, con: con, key: key, bound: bound, tags: map[string]int{}, strs: map[string]int{},
+	return &Exec{view: eng.curView, eng: eng, decls: newDecls(), fn: fn, con: con, key: key, bound: bound, tags: map[string]int{}, strs: map[string]int{},
 		keyTypes: map[string]types.Type{}, arrStorage: map[string]bool{}, labels: map[ssa.Instruction]string{}, loops: map[*ssa.Function]*LoopInfo{},
 		notes: map[string]bool{}, alias: map[string][]string{}, arrOrigin: map[string]originInfo{}, escCache: map[*ssa.Alloc]bool{}, iterMap: map[ssa.Value]Val{}, proveCache: map[string]bool{}, errGlobals: map[string]bool{}, noWrapRec: map[string]bool{}}
 }
